@@ -50,6 +50,15 @@ THEOREMS = [NS + n for n in [
     "generator_next_name_restarts",
     "generator_next_name_snapshot_witness",
     "process_wide_state_ok",
+    "tsort_inner_order_independent",
+    "absorb_order_independent",
+    "absorbed_superset_order_independent",
+    "cte_dedup_storage_order_independent",
+    "process_wide_tables_shape",
+    "dispatch_cache_idempotent",
+    "registry_lookup_eq_fresh",
+    "dialect_instance_reuse_eq_fresh",
+    "dialect_settings_order_independent",
 ]]
 
 # fields a call writes but hands back itself (not through reset): justified next to the theorem that uses them
@@ -258,6 +267,53 @@ def process_wide_state():
     return sorted(out)
 
 
+def dialect_fields(chk=None):
+    """Dialect.__init__'s assignments and the instance fields any other method of a dialect class writes"""
+    init, written = [], set()
+    for path in sorted(glob.glob(os.path.join(REPO, "sqlglot", "dialects", "*.py"))):
+        t = ast.parse(open(path, encoding="utf-8").read())
+        for c in t.body:
+            if not isinstance(c, ast.ClassDef):
+                continue
+            for fn in c.body:
+                if not isinstance(fn, ast.FunctionDef):
+                    continue
+                for n in ast.walk(fn):
+                    if isinstance(n, ast.Attribute) and isinstance(n.ctx, (ast.Store, ast.Del)) and isinstance(n.value, ast.Name) and n.value.id == "self":
+                        if fn.name == "__init__":
+                            if c.name == "Dialect":
+                                par = next((a for a in ast.walk(fn) if isinstance(a, (ast.Assign, ast.AnnAssign)) and
+                                            n in ast.walk(a.targets[0] if isinstance(a, ast.Assign) else a.target)), None)
+                                init.append((n.attr, ast.unparse(par.value) if par is not None and par.value is not None else "?"))
+                        else:
+                            written.add(f"{c.name}.{fn.name}:{n.attr}")
+    if not init and chk is not None:
+        chk.broken.append({"kind": "translator", "what": "C15 translator: structure changed: Dialect.__init__ assigns nothing"})
+    return init, sorted(written)
+
+
+def dispatch_fill_shape(chk=None):
+    """the fill of _DISPATCH_CACHE in Generator.__init__: `v = C.get(k)`; `if v is None:` `v = build(k)`; `C[k] = v`"""
+    G = _cls("sqlglot/generator.py", "Generator")
+    fn = next((f for f in (G.body if G else []) if isinstance(f, ast.FunctionDef) and f.name == "__init__"), None)
+    out = []
+    if fn is not None:
+        for st in ast.walk(fn):
+            if isinstance(st, ast.Assign) and isinstance(st.value, ast.Call) and isinstance(st.value.func, ast.Attribute) \
+                    and st.value.func.attr == "get" and isinstance(st.value.func.value, ast.Name) and st.value.func.value.id == "_DISPATCH_CACHE":
+                out.append("lookup:" + ast.unparse(st.targets[0]) + "=_DISPATCH_CACHE.get(" + ",".join(ast.unparse(a) for a in st.value.args) + ")")
+            if isinstance(st, ast.If) and any(isinstance(x, ast.Subscript) and isinstance(x.value, ast.Name) and x.value.id == "_DISPATCH_CACHE"
+                                              for x in ast.walk(st)):
+                out.append("if:" + ast.unparse(st.test))
+                for b in st.body:
+                    out.append("then:" + ast.unparse(b))
+                if st.orelse:
+                    out.append("else:" + ";".join(ast.unparse(b) for b in st.orelse))
+    if not out and chk is not None:
+        chk.broken.append({"kind": "translator", "what": "C15 translator: structure changed: _DISPATCH_CACHE fill not found in Generator.__init__"})
+    return out
+
+
 def translate(chk) -> str:
     r = extract(chk)
     chk.cov["state_fields"] = {k: len(v) for k, v in r.items()}
@@ -267,6 +323,10 @@ def translate(chk) -> str:
         L.append(f"def {k} : List (String × String) := " + lean_list("(" + lean_str(a) + ", " + lean_str(b) + ")" for a, b in r[k]))
     for k in ("parserWritten", "tokenizerWritten", "generatorWritten"):
         L.append(f"def {k} : List String := " + lean_list(lean_str(a) for a in r[k]))
+    dinit, dwritten = dialect_fields(chk)
+    L.append("def dialectInit : List (String × String) := " + lean_list("(" + lean_str(a) + ", " + lean_str(b) + ")" for a, b in dinit))
+    L.append("def dialectWritten : List String := " + lean_list(lean_str(a) for a in dwritten))
+    L.append("def dispatchCacheFill : List String := " + lean_list(lean_str(a) for a in dispatch_fill_shape(chk)))
     pw = process_wide_state()
     chk.cov["process_wide_state_sites"] = len(pw)
     L.append("/-- (file, name, kind, writer): state shared by the whole process that code running after import writes -/")
@@ -328,6 +388,40 @@ def correspond(chk) -> list:
             meta.append(("tsort", None, dag))
             chk.count("corr:tsort:" + ("cycle" if got == "cycle" else "ok"))
             chk.case(("tsort", dag), nontrivial=nn > 1)
+    for i in range(n // 3):
+        # A OR (A AND B) -> A : connector of columns and of AND-groups of columns; which operands get absorbed
+        kind_or = rng.random() < 0.5
+        k = rng.randint(2, 5)
+        ops = []
+        for _ in range(k):
+            if rng.random() < 0.45:
+                ops.append([[rng.randrange(5)], False])
+            else:
+                lits = rng.sample(range(5), rng.randint(2, 3))
+                ops.append([lits, True])
+        def mk(lits, dual):
+            cols = [exp.column(f"c{x}") for x in lits]
+            e = cols[0]
+            for c in cols[1:]:
+                e = (exp.And if kind_or else exp.Or)(this=e, expression=c)
+            return exp.Paren(this=e) if dual and len(cols) > 1 else e
+        parts = [mk(l, d) for l, d in ops]
+        e = parts[0]
+        for c in parts[1:]:
+            e = (exp.Or if kind_or else exp.And)(this=e, expression=c)
+        try:
+            r = simp.absorb_and_eliminate(e)
+            flat = list(r.flatten()) if isinstance(r, exp.Connector) else [r]
+            got_ = "[" + ", ".join("true" if isinstance(o.unnest(), exp.Boolean) else "false" for o in flat) + "]"
+            if len(flat) != len(ops):
+                got_ = f"shape {len(flat)}"
+        except Exception as ex:  # noqa
+            got_ = "exc " + type(ex).__name__
+        lines.append(json.dumps({"op": "absorb", "ops": ops}))
+        expect.append(got_)
+        meta.append(("absorb_and_eliminate", "or" if kind_or else "and", ops))
+        chk.count("corr:absorb")
+        chk.case(("absorb", kind_or, ops), nontrivial="true" in got_)
     got = chk.driver("C15", lines)
     chk.corr_cases += len(lines)
     bad = []
@@ -427,6 +521,13 @@ def run_case(op, a):
         d = custom_dialect(a["which"])
         e = parse_one(a["sql"], read=d)
         return e.sql(dialect=d, identify=True) + " || " + e.sql(dialect=d) + " || " + str(sqlglot.transpile(a["sql"], read=d, write=d))
+    if op == "dialect_settings":   # settings-string dialects; here the error TEXT counts as the answer
+        from sqlglot.dialects.dialect import Dialect
+        try:
+            d = Dialect.get_or_raise(a["spec"])
+        except ValueError as e:
+            return "ValueError:" + str(e)
+        return f"{type(d).__name__}|{d.normalization_strategy}|{d.version}|{sorted(d.settings.items())}"
     if op == "tsort":
         from sqlglot.helper import tsort
         try:
@@ -581,6 +682,11 @@ def build_family(chk, n_var):
             fam.append([f"gdir{j}", "gen_direct", {"sql": sql, "write": d}])
             fam.append([f"pdir{j}", "parser_direct", {"sql": sql, "read": d}])
             j += 1
+    for spec in ("mysql, normalization_strategy = case_sensitive, version = 8.0", "mysql, version = 8.0, normalization_strategy = case_sensitive",
+                 "snowflake, normalization_strategy = lowercase", "duckdb, version = 1.2", "mysql, foo = 1, bar = 2, baz = 3",
+                 "presto, nope = 1, zzz", "bigquery,,"):
+        fam.append([f"dset{j}", "dialect_settings", {"spec": spec, "sql": "dialect " + spec}])
+        j += 1
     for which, sql in (("mysql_dq", 'SELECT "a b" FROM t'), ("pg_bt", "SELECT `a b`, 'x' FROM t"), ("base_bt", "SELECT `a b` FROM t"),
                        ("duck_gen", "SELECT a FROM t ORDER BY a NULLS FIRST"), ("settings:mysql, normalization_strategy = case_sensitive", "SELECT `Ab` FROM T"),
                        ("settings:snowflake, normalization_strategy = lowercase", 'SELECT Ab, "Cd" FROM T')):
@@ -848,9 +954,12 @@ def search(chk, hints, budget_s):
         reported.add(cid)
         why = "hash-seed" if solo else ("history/order" if same_seed_other_order or not solo else "hash-seed")
         small = by_id[cid]
-        if solo and op != "tsort":
+        if solo and op not in ("tsort", "dialect_settings"):
             small = minimise_sweep_diff(by_id[cid], [configs[0][0], configs[first][0]])
         skeleton = abstract_sql(small[2]["sql"]) if op != "tsort" else f"dag({len(a['dag'])} nodes)"
+        if op == "dialect_settings":
+            both = [str(vals[0]), str(vals[first])]
+            skeleton = "unknown-setting-message" if all(v.startswith("ValueError:Unknown setting") for v in both) else "settings"
         if op == "parse":
             # a tree whose only difference is the insertion order of two args is identified by those arg names
             try:
